@@ -279,8 +279,7 @@ impl Repr {
         } else {
             // We need to create a new buffer because the current buffer is shared with others.
             let str = heap.as_str();
-            let additional = new_capacity - str.len();
-            let new_heap = HeapBuffer::with_additional(str, additional)?;
+            let new_heap = HeapBuffer::with_capacity_from(str, new_capacity)?;
             Repr::from_heap(new_heap)
         };
 
